@@ -48,7 +48,8 @@ def ilst_of(data):
 
 
 def region_of(data):
-    """(offset, length) of ilst plus the one adjacent free atom (the one before ilst wins), independent reading"""
+    """(offset, length) of ilst plus the one adjacent free atom (the one behind ilst wins, where save writes its padding),
+    independent reading"""
     atoms = W.mp4_atoms(data)
     p = first_path(atoms, ILST_PATH)
     if p is None:
@@ -56,10 +57,10 @@ def region_of(data):
     meta, ilst = p[-2], p[-1]
     sib = meta["children"]
     i = sib.index(ilst)
-    if i > 0 and sib[i - 1]["name"] == b"free":
-        return sib[i - 1]["off"], sib[i - 1]["size"] + ilst["size"]
     if i + 1 < len(sib) and sib[i + 1]["name"] == b"free":
         return ilst["off"], ilst["size"] + sib[i + 1]["size"]
+    if i > 0 and sib[i - 1]["name"] == b"free":
+        return sib[i - 1]["off"], sib[i - 1]["size"] + ilst["size"]
     return ilst["off"], ilst["size"]
 
 
